@@ -194,6 +194,30 @@ func (m *Model) ruleFEEDWRITERS(r *Results) {
 	if n == 0 {
 		r.undecided(rule, "registration", "-", "no update of the feed registry found")
 	}
+	// a feed is registered by the function that starts it, before its goroutine runs - never by the
+	// goroutine itself (registering "when the consumer gets there" leaves every mutation that
+	// commits in the meantime in neither the snapshot nor the live stream)
+	if root, _ := m.feedRoot(); root != nil {
+		bad := ""
+		for g := range m.reachableLocal(root) {
+			for _, b := range g.Blocks {
+				for _, ins := range b.Instrs {
+					if mu, ok := ins.(*ssa.MapUpdate); ok {
+						if ld, ok := mu.Map.(*ssa.UnOp); ok {
+							if fa, ok := ld.X.(*ssa.FieldAddr); ok && fieldOf(fa) == a.FeedsField {
+								bad = m.instrPos(mu)
+							}
+						}
+					}
+				}
+			}
+		}
+		pos := m.pos(root.Pos())
+		if bad != "" {
+			pos = bad
+		}
+		r.check(bad == "", rule, "<feed-goroutine> / does not register the feed", pos, "the feed's goroutine never writes the feed registry", "the feed is (also) registered for live events from its own goroutine, i.e. some time after the start function returned: mutations that commit before the consumer gets there are in neither the backfill snapshot nor the live stream")
+	}
 }
 
 // ---------------------------------------------------------------- R-LOOPVAR
@@ -1334,6 +1358,42 @@ func (m *Model) ruleOPENERR(r *Results) {
 		})
 	}
 	m.openCleanupOnlyNew(r, rule, fn)
+	// outside that cleanup the open function removes nothing: files it finds next to an existing
+	// database (the write-ahead log of a process that was killed) are that database's state
+	{
+		bad := ""
+		var visit func(g *ssa.Function, depth int)
+		seenFn := map[*ssa.Function]bool{}
+		visit = func(g *ssa.Function, depth int) {
+			if seenFn[g] || depth > 3 {
+				return
+			}
+			seenFn[g] = true
+			m.eachCall(g, func(c ssa.CallInstruction) {
+				if _, isDefer := c.(*ssa.Defer); isDefer {
+					return
+				}
+				t := c.Common().StaticCallee()
+				if t == nil {
+					return
+				}
+				if t.Pkg != nil && t.Pkg.Pkg.Path() == "os" && (t.Name() == "Remove" || t.Name() == "RemoveAll") {
+					bad = m.instrPos(c)
+					return
+				}
+				// helpers that prepare the open (URL, directory, schema): not the registry / handle API
+				if m.inPkg(t) && t.Signature.Recv() == nil && len(t.Blocks) > 0 {
+					visit(t, depth+1)
+				}
+			})
+		}
+		visit(fn, 0)
+		pos := m.pos(fn.Pos())
+		if bad != "" {
+			pos = bad
+		}
+		r.check(bad == "", rule, m.declName(fn)+" / opening removes no files", pos, "neither the open function nor the helpers that prepare the open call os.Remove / os.RemoveAll", "the open function (or a helper preparing the open) deletes files: what lies next to an existing database - the write-ahead log left by a killed process - holds acknowledged commits, and removing it on open loses them")
+	}
 	if len(regs) == 0 {
 		r.undecided(rule, m.declName(fn)+" / registration", m.pos(fn.Pos()), "the open function does not register the bucket")
 		return
@@ -2045,6 +2105,51 @@ func (m *Model) ruleFILTERRESULT(r *Results) {
 		}
 		for _, ret := range returnsOf(fn) {
 			check(ret.Results[0], ret.Block(), 0)
+		}
+		// ... and "nothing" really is nothing: when the callback left the map empty the result is nil,
+		// not the encoding of an empty map (the column would then be non-NULL for a document without xattrs)
+		{
+			hasNilAlt, lenTest := false, false
+			var scan func(v ssa.Value, depth int)
+			scan = func(v ssa.Value, depth int) {
+				v = stripConv(v)
+				if depth > 5 {
+					return
+				}
+				if phi, ok := v.(*ssa.Phi); ok {
+					for _, e := range phi.Edges {
+						scan(e, depth+1)
+					}
+					return
+				}
+				if c, ok := v.(*ssa.Const); ok && c.Value == nil {
+					hasNilAlt = true
+				}
+			}
+			for _, ret := range returnsOf(fn) {
+				if after[ret.Block().Index] {
+					scan(ret.Results[0], 0)
+				}
+			}
+			for _, iff := range allIfs(fn) {
+				if !after[iff.Block().Index] {
+					continue
+				}
+				cd := condOf(iff)
+				for _, o := range []ssa.Value{cd.X, cd.Y} {
+					if o == nil {
+						continue
+					}
+					if call, ok := stripConv(o).(*ssa.Call); ok {
+						if bi, ok := call.Common().Value.(*ssa.Builtin); ok && bi.Name() == "len" {
+							if _, isMap := call.Common().Args[0].Type().Underlying().(*types.Map); isMap {
+								lenTest = true
+							}
+						}
+					}
+				}
+			}
+			r.check(hasNilAlt && lenTest, rule, m.declName(fn)+" / an emptied map is returned as nothing", m.pos(fn.Pos()), "after the callback the helper tests the map's length and can return nil", "after the callback the helper re-encodes the map whatever its size: a map the callback emptied comes back as `{}`, the xattrs column is then non-NULL for a document without xattrs, and statements that test `xattrs NOT NULL` (the view indexer's selection of current documents) treat a deleted document as present")
 		}
 		r.check(bad == "", rule, m.declName(fn)+" / result after the callback is the re-encoded map", m.pos(fn.Pos()), "after the callback ran, the helper returns the re-encoded map (or nothing), never its input", "on a path that ran the callback (leaving "+bad+") the helper returns its unmodified input: when the callback removed every entry, the caller gets all entries back and writes them")
 	}
